@@ -104,7 +104,7 @@ CHECKS = {
          "The rest of the integer core (inc/dec/neg/not, shifts, rotates, double shifts, mul/div, bit ops, extensions, flag ops, setcc/cmovcc, xchg/xadd/cmpxchg, lea, stack, string, control transfer) is NOT a theorem: "
          "the regenerated IR of every catalogue form (+ an addressing-mode sweep over every ModRM/SIB byte) is evaluated by the extracted Expr.eval on 6 (quick) / 40 (thorough) boundary x random states and compared with harness/x86ref.py "
          "(registers, defined flags, written bytes, eip). Deviations on the unchanged tree are listed per (mnemonic, operand size, output, shift-count class)."),
-   note=TB + "Sem.v is a hand mirror of ia32_sem.py's flag helpers and 9 semantic functions; its tie to the code is the kernel-checked identity with the regenerated IR (SemFacts.v), re-proved on every run. The destination write-back through ExprAff's slice rewriting (mk_aff) is mirrored and tied but its bit-level meaning is not yet a theorem. x86ref.py is a hand-written specification (reviewed against the SDM; not verified).",
+   note=TB + "Sem.v is a hand mirror of ia32_sem.py's flag helpers and 9 semantic functions; its tie to the code is the kernel-checked identity with the regenerated IR (SemFacts.v), re-proved on every run. The destination write-back through ExprAff's slice rewriting (mk_aff) is mirrored and tied but its bit-level meaning is not yet a theorem. x86ref.py is a hand-written specification, reviewed against the SDM and validated against the real processor on every run (harness/cpucheck.py: 262 register forms, 0 disagreements on >100k executed states; testing, not proof).",
    design='4/C04', category='other'),
  'C08': dict(
    technique='Coq theorem (coincidence lifted to assignment lists: nothing outside get_r can influence any value of ANY lifted list) + dependency and write probing of the implementation-reported sets against the SDM reference and an SSE operand-role table',
